@@ -13,6 +13,11 @@
 (***************************************************************************)
 EXTENDS Deps, TraceKit, Eager
 
+\* The judgement is a chain of classes (the first disagreement is the verdict).  A check that owns only some classes
+\* sets Focus to them, so that a disagreement of another class in the same event cannot hide its own ({} = all).
+CONSTANT Focus
+On(c) == Focus = {} \/ c \in Focus
+
 VARIABLES sh, l, j, bad
 vars == <<sh, l, j, bad>>
 
@@ -88,20 +93,31 @@ DataConflict(orig, i, k) ==
        \/ (k = Len(orig) /\ b.jump)
 DataSound(orig, perm) == \A i, k \in 1..Len(orig) : DataConflict(orig, i, k) => Pos(perm, i) < Pos(perm, k)
 
+\* C06 on what the tool REPORTS (independent of the projection classes): the bounds of every independent adjacent pair
+\* admit the swap
+RepShapeOk(ev, st) == /\ Len(ev.blocks) = Len(st.order)
+                      /\ \A q \in 1..Len(st.order) : Len(ev.blocks[q].ins) = Len(st.blocks[st.order[q]].ids)
+MustSwapReported(ev, st) ==
+    RepShapeOk(ev, st) /\ \E q \in 1..Len(st.order) : \E p \in 1..(Len(st.blocks[st.order[q]].ids) - 1) :
+        /\ Independent(BlockOrig(st, st.blocks[st.order[q]]), BlockPerm(st, st.blocks[st.order[q]]), p)
+        /\ ~(ev.blocks[q].ins[p].up >= p /\ ev.blocks[q].ins[p + 1].lo <= p - 1)
+
 CheckState(ev, st) ==
-    IF ev.blocks # ExpBlocks(st) THEN Fail("projection", ExpBlocks(st), ev.blocks, st)
-    ELSE IF \E i \in 1..Len(ev.lookups) : ev.lookups[i] # ExpLookup(st, ev.lookups[i][1])
+    IF On("projection") /\ ev.blocks # ExpBlocks(st) THEN Fail("projection", ExpBlocks(st), ev.blocks, st)
+    ELSE IF On("lookup") /\ \E i \in 1..Len(ev.lookups) : ev.lookups[i] # ExpLookup(st, ev.lookups[i][1])
       THEN Let1(CHOOSE i \in 1..Len(ev.lookups) : ev.lookups[i] # ExpLookup(st, ev.lookups[i][1]), LAMBDA i :
                 Fail("lookup", ExpLookup(st, ev.lookups[i][1]), ev.lookups[i], st))
-    ELSE IF \E e \in st.edges : \E b \in 1..Len(st.blocks) :
+    ELSE IF On("edgeorder") /\ \E e \in st.edges : \E b \in 1..Len(st.blocks) :
               e[1] \in SeqSet(st.blocks[b].ids) /\ e[2] \in SeqSet(st.blocks[b].ids)
               /\ PosIn(st.blocks[b].ids, e[1]) >= PosIn(st.blocks[b].ids, e[2])
       THEN Fail("edgeorder", "every instruction after the instructions it depends on", ev.blocks, st)
-    ELSE IF \E b \in 1..Len(st.blocks) : ~DataSound(BlockOrig(st, st.blocks[b]), BlockPerm(st, st.blocks[b]))
+    ELSE IF On("unsound") /\ \E b \in 1..Len(st.blocks) : ~DataSound(BlockOrig(st, st.blocks[b]), BlockPerm(st, st.blocks[b]))
       THEN Fail("unsound", "conflicting instructions keep their order", ev.blocks, st)
-    ELSE IF \E b \in 1..Len(st.blocks) : \E p \in 1..(Len(st.blocks[b].ids) - 1) :
-              /\ Independent(BlockOrig(st, st.blocks[b]), BlockPerm(st, st.blocks[b]), p)
-              /\ ~(UpOf(st, st.blocks[b].ids, p) >= p /\ LoOf(st, st.blocks[b].ids, p + 1) <= p - 1)
+    ELSE IF On("mustswap") /\
+            ( \/ \E b \in 1..Len(st.blocks) : \E p \in 1..(Len(st.blocks[b].ids) - 1) :
+                    /\ Independent(BlockOrig(st, st.blocks[b]), BlockPerm(st, st.blocks[b]), p)
+                    /\ ~(UpOf(st, st.blocks[b].ids, p) >= p /\ LoOf(st, st.blocks[b].ids, p + 1) <= p - 1)
+              \/ MustSwapReported(ev, st) )
       THEN Fail("mustswap", "independent neighbours can be swapped", ev.blocks, st)
     ELSE Pass(st)
 
@@ -122,7 +138,12 @@ JudgeMove(ev, st) ==
       Let1(Len(b.ids), LAMBDA n :
         Let1(/\ ev.from >= 0 /\ ev.from < n /\ ev.to >= 0 /\ ev.to < n
              /\ LoOf(st, b.ids, ev.from + 1) <= ev.to /\ ev.to <= UpOf(st, b.ids, ev.from + 1), LAMBDA okexp :
-          IF ev.ok # okexp THEN Fail("accept", [ok |-> okexp, lo |-> IF ev.from >= 0 /\ ev.from < n THEN LoOf(st, b.ids, ev.from + 1) ELSE -1,
+          \* C06 directly: a swap of independent neighbours was attempted and refused
+          IF On("mustswap") /\ ~ev.ok /\ ev.from >= 0 /\ ev.from < n /\ ev.to >= 0 /\ ev.to < n
+             /\ (ev.to = ev.from + 1 \/ ev.from = ev.to + 1)
+             /\ Independent(BlockOrig(st, b), BlockPerm(st, b), (IF ev.from < ev.to THEN ev.from ELSE ev.to) + 1)
+            THEN Fail("mustswap", "swap of independent neighbours accepted", [from |-> ev.from, to |-> ev.to, ok |-> ev.ok], st)
+          ELSE IF On("accept") /\ ev.ok # okexp THEN Fail("accept", [ok |-> okexp, lo |-> IF ev.from >= 0 /\ ev.from < n THEN LoOf(st, b.ids, ev.from + 1) ELSE -1,
                                                  up |-> IF ev.from >= 0 /\ ev.from < n THEN UpOf(st, b.ids, ev.from + 1) ELSE -1],
                                       [ok |-> ev.ok], st)
           ELSE IF ~ev.ok \/ ev.from = ev.to THEN CheckState(ev, st)
@@ -132,7 +153,7 @@ JudgeBMove(ev, st) ==
     IF ev.panic # "" THEN Fail("panic", "no panic", ev.panic, st)
     ELSE Let1(Len(st.order), LAMBDA n :
       Let1(ev.from >= 0 /\ ev.from < n /\ ev.to >= 0 /\ ev.to < n, LAMBDA okexp :
-        IF ev.ok # okexp THEN Fail("accept", [ok |-> okexp], [ok |-> ev.ok], st)
+        IF On("accept") /\ ev.ok # okexp THEN Fail("accept", [ok |-> okexp], [ok |-> ev.ok], st)
         ELSE IF ~ev.ok \/ ev.from = ev.to THEN CheckState(ev, st)
         ELSE CheckState(ev, [st EXCEPT !.order = Rot(st.order, ev.from + 1, ev.to + 1)])))
 
